@@ -10,7 +10,7 @@ CONSTANTS
   SlowSet = {"D"}
   CfgWrite = FALSE
   NCl = 2
-  MaxSend = 6
+  MaxSend = 2
 CONSTRAINT Progress
 POSTCONDITION Post
 CHECK_DEADLOCK FALSE
